@@ -1310,6 +1310,20 @@ def suite_extlattice(rng, tier):
                         j = s.encap_frag(bs_gen(n, pl), s.ops[i]["reg"], bs_zero(4200), cout=s.ops[i]["reg"])
                         s.decap_if("p:%d" % s.ops[j]["reg"], of=j)
                         out.append(s)
+    # PDUs around the 16-bit total length through encap_ext (total length = PDU + 2 + label as written, the
+    # extensions are not counted): the largest PDU that fits is accepted, one more byte is refused
+    for lab in (LBL_A6, LBL_A3, LBL_BC):
+        ll = lab.wire_len()
+        for pl in (65533 - ll - 1, 65533 - ll, 65533 - ll + 1, 65533, 65534, 65535, 65536):
+            for ch in (chains[0], chains[2], chains[10]):
+                for bl in (20, 5000):
+                    s = Session("extbig%d" % n)
+                    n += 1
+                    s.strict = False
+                    pt = ch[-1][0] if ch[-1][0] < 0x100 else 0x0800
+                    s.enc("new")
+                    s.encap(bs_gen(n, pl), 3, pt, lab, bs_zero(bl), exts=ch)
+                    out.append(s)
     # the mandatory rejections of encap_ext (zero 6-byte label and its neighbours, explicit re-use with and
     # without something to re-use, protocol types in the refused range) on every chain shape
     from suites import LBL_Z6, TRICKY_LABELS
